@@ -15,7 +15,7 @@ import extract  # noqa: E402
 
 LEAN = os.path.join(VERIF, "lean")
 WORK = os.path.join(VERIF, ".work")
-EVID = os.path.join(VERIF, "evidence")
+EVID = os.environ.get("VERIF_EVIDENCE_DIR") or os.path.join(VERIF, "evidence")   # (experiments with seeded changes write elsewhere)
 REPLAYS = os.path.join(EVID, "replays")
 HARNESS_TIMEOUT = int(os.environ.get("RSP_HARNESS_TIMEOUT", "120"))
 ACCEPTED_AXIOMS = {"propext", "Classical.choice", "Quot.sound"}
